@@ -323,6 +323,7 @@ func RunC06(run *vk.Run) {
 	// the whole decision table of the endorse command's flags (EndorseFlags.tla): the request the command
 	// prepares names what the command line asked for
 	ka.EndorseRequestPredicates(run)
+	checkRequestReuse(run)
 	checkOutOfOrderSections(run)
 	// failure injection: a measurement that cannot be computed must yield no document
 	ca, signer, _ := fx.DevAuthority()
@@ -354,6 +355,64 @@ func RunC06(run *vk.Run) {
 	}
 	run.Exhaustive = !run.IsQuick()
 	run.Rule = "every request row of Golden.tla (technology subsets x VMSA counts {all,1,2,240} x product x 5 shape lists x early accept x SVSM x provenance = 960; quick a seeded third) is run through the real GoldenMeasurement and SignDoc on a 2 MiB image; every entry is compared with a separate single-configuration call of sev.LaunchDigest / tdx.MRTD, the digest with SHA-384, the remaining fields with the request; plus failure injection with images valid for one technology only; plus every row of EndorseFlags.tla (image path x version files x technologies x ids x commit length x SVSM file x shape spellings) on the real endorse command: the request it prepares names the technologies, the security version of the version file next to the image, the machine shapes and the SVSM measurement the command line asked for"
+}
+
+// checkRequestReuse: one request object (endorse.Context) used for a series of images, as a caller that
+// endorses several builds in one process does -- reassigned, and edited in place; every signed document
+// carries the SHA-384 and the SEV-SNP measurement of the image that run was given.
+func checkRequestReuse(run *vk.Run) {
+	ca, signer, err := fx.DevAuthority()
+	if err != nil {
+		run.Infra(err)
+		return
+	}
+	kc := &keys.Context{CA: ca, Signer: signer}
+	a, b := fx.Image(0x1000, 901), fx.Image(0x1000, 902)
+	inplace := append([]byte{}, a...)
+	ec := &endorse.Context{ClSpec: 3, Timestamp: time.Date(2025, 3, 4, 5, 6, 7, 0, time.UTC), SevSnp: &sev.SnpEndorsementRequest{LaunchVmsas: 1, Product: product("Milan")}}
+	steps := []struct {
+		name string
+		set  func()
+	}{
+		{"first image", func() { ec.Image = a }},
+		{"another image assigned to the same request", func() { ec.Image = b }},
+		{"the first image again", func() { ec.Image = a }},
+		{"a private copy of the first image", func() { ec.Image = inplace }},
+		{"that copy edited in place (one byte of the free area)", func() { inplace[0x500] ^= 0x5a }},
+	}
+	for _, st := range steps {
+		st.set()
+		ctx := endorse.NewContext(fx.Ctx(kc, false, false), ec)
+		var doc *epb.VMGoldenMeasurement
+		var gerr error
+		func() {
+			defer func() {
+				if p := recover(); p != nil {
+					gerr = fmt.Errorf("PANIC: %v", p)
+				}
+			}()
+			doc, gerr = endorse.GoldenMeasurement(ctx)
+			if gerr == nil {
+				var e *epb.VMLaunchEndorsement
+				if e, gerr = endorse.SignDoc(ctx, doc); gerr == nil {
+					doc = &epb.VMGoldenMeasurement{}
+					gerr = proto.Unmarshal(e.SerializedUefiGolden, doc)
+				}
+			}
+		}()
+		run.Case("request-reuse:"+st.name, true)
+		if gerr != nil {
+			run.Violation("request-reuse-fails", fmt.Sprintf("one request object used for a series of images, step %q: %v", st.name, gerr), nil)
+			continue
+		}
+		if !bytes.Equal(doc.Digest, fx.Sha384(ec.Image)) {
+			run.Violation("digest-wrong:request-reuse", fmt.Sprintf("one request object used for a series of images, step %q: the signed document's digest is not the SHA-384 of the image this run was given", st.name), nil)
+		}
+		want, lerr := sev.LaunchDigest(&sev.LaunchOptions{Vcpus: 1, Product: product("Milan")}, append([]byte{}, ec.Image...))
+		if lerr != nil || !bytes.Equal(doc.GetSevSnp().GetMeasurements()[1], want) {
+			run.Violation("snp-value-wrong:request-reuse", fmt.Sprintf("one request object used for a series of images, step %q: the signed entry for 1 VMSA is not the launch measurement of the image this run was given (%v)", st.name, lerr), nil)
+		}
+	}
 }
 
 // checkOutOfOrderSections: an image whose SNP metadata lists its sections out of address order; every
